@@ -79,6 +79,9 @@ def line_char_case(ctx, data, do_model=True):
                 ctx.nontriv("char", data)
 
 
+_reused = {}
+
+
 def symbol_case(ctx, data, cut, do_model=True):
     res = loaders.real_load("symbol", data, cut)
     B, A = cut if cut else (b"]}:", b"?=;{[\n")
@@ -91,6 +94,22 @@ def symbol_case(ctx, data, cut, do_model=True):
         ctx.fail("raises", f"symbol: load raised {res[1]}: {res[2]!r}", case)
         return
     check_symbol(ctx, data, res[1].parts, B, A, case)
+    # one long-lived object that is given new delimiter sets between loads (a driver re-using its testcase): the sets in
+    # force at the time of the load decide
+    obj = _reused.get("symbol")
+    if obj is None:
+        obj = _reused["symbol"] = loaders.new_testcase("symbol")
+    try:
+        obj.set_cut_chars(B, A)
+        rp = loaders.scratch() / "c15-reuse.txt"
+        rp.write_bytes(data)
+        obj.load(rp)
+        if list(obj.parts) != list(res[1].parts):
+            ctx.fail("symbol-reconfigured", f"an object re-configured to cut-before={B!r} cut-after={A!r} splits {data!r} into {obj.parts!r}, "
+                     f"a fresh one into {res[1].parts!r}", dict(case, reused_object=True))
+    except Exception as exc:  # pylint: disable=broad-except
+        _reused["symbol"] = None
+        ctx.fail("symbol-reconfigured", f"a re-configured object raised {type(exc).__name__}: {exc}", dict(case, reused_object=True))
     if len(res[1].parts) >= 2:
         ctx.nontriv("symbol", B, A, data)
         ctx.bump("symbol:>=2 atoms")
